@@ -325,6 +325,13 @@ def multiplication_circuit(num_arg1_bits: int, num_arg2_bits: Optional[int] = No
 
     num_product_bits = num_arg1_bits +num_arg2_bits
 
+    if num_arg1_bits == 1 or num_arg2_bits == 1:
+        # no adders: each product bit is one AND, the top product bit is 0
+        bqm = quicksum(and_gate(f'a{i}', f'b{j}', f'p{i + j}')
+                       for i, j in product(range(num_arg1_bits), range(num_arg2_bits)))
+        bqm.add_linear(f'p{num_product_bits - 1}', 1)
+        return bqm
+
     # throughout, we will use the following convention:
     #   i to refer to the bits of arg1
     #   j to refer to the bits of arg2
